@@ -412,7 +412,9 @@ def _inline_into(caller, helper, hname, is_method, clsname):
                 if isinstance(st, ast.Expr) and isinstance(st.value, ast.Call) and _call_matches(st.value, hname, is_method, clsname):
                     new = _expansion(helper, st.value, is_method, caller, "expr")
                 elif isinstance(st, ast.Assign) and len(st.targets) == 1 and isinstance(st.value, ast.Call) \
-                        and _call_matches(st.value, hname, is_method, clsname) and isinstance(st.targets[0], (ast.Name, ast.Attribute)):
+                        and _call_matches(st.value, hname, is_method, clsname) and (
+                            isinstance(st.targets[0], (ast.Name, ast.Attribute))
+                            or (isinstance(st.targets[0], ast.Tuple) and all(isinstance(e, ast.Name) for e in st.targets[0].elts))):
                     new = _expansion(helper, st.value, is_method, caller, "assign", st.targets[0])
                 elif isinstance(st, ast.Return) and isinstance(st.value, ast.Call) and _call_matches(st.value, hname, is_method, clsname):
                     new = _expansion(helper, st.value, is_method, caller, "return")
@@ -872,6 +874,22 @@ def _norm_block(lst, fn):
                 st.body = st.body[1:]
                 ast.fix_missing_locations(st)
                 n += 1
+        # a, b = x, y   ->   a = x; b = y      (when no target name occurs in the values)
+        if isinstance(st, ast.Assign) and len(st.targets) == 1 and isinstance(st.targets[0], ast.Tuple) and isinstance(st.value, ast.Tuple) \
+                and len(st.targets[0].elts) == len(st.value.elts) and all(isinstance(e, ast.Name) for e in st.targets[0].elts) \
+                and not any(isinstance(e, ast.Starred) for e in st.value.elts):
+            tn = {e.id for e in st.targets[0].elts}
+            if not any(isinstance(x, ast.Name) and x.id in tn for v in st.value.elts for x in ast.walk(v)):
+                new = []
+                for t, v in zip(st.targets[0].elts, st.value.elts):
+                    a = ast.Assign(targets=[ast.Name(id=t.id, ctx=ast.Store())], value=v)
+                    ast.copy_location(a, st)
+                    ast.fix_missing_locations(a)
+                    new.append(a)
+                lst[i:i + 1] = new
+                n += 1
+                i += len(new)
+                continue
         # [f(x) for x in xs]  as a statement   ->   for x in xs: f(x)
         if isinstance(st, ast.Expr) and isinstance(st.value, ast.ListComp) and len(st.value.generators) == 1 \
                 and not st.value.generators[0].is_async:
